@@ -8,6 +8,20 @@ ALL = [f"C{i:02d}" for i in range(1, 21)]
 
 # id -> (technique, level text, level note, design ref)
 CHECKS = {
+    "C01": (
+        "exhaustive product enumeration operation x call form x operand-kind pair x dimension pair x shape "
+        "on the real code, verdict table derived from the statement, operand snapshots before/after",
+        "Every commensurability-requiring ufunc (call/out=/outer/reduce(initial=)/at), operator (plain, reflected "
+        "via bare-left operands, in-place), merging array function, item assignment form and .to() route is run "
+        "for all 81 ordered operand-kind pairs, several dimension pairs (all registry dimension pairs in thorough) "
+        "and three shapes; whenever the reference dimensions differ the call must raise (==/!= answer), and "
+        "every operand must be bit-identical afterwards. A single table entry mapped to a pass-through rule or a "
+        "handler that forgets its unit validation is necessarily visited.",
+        "The list of operations that need commensurable operands is typed from NumPy semantics. No verdict for "
+        "cells where the statement's exceptions overlap (== with a dimensionless operand, bare scalars in "
+        "value-into-array positions, plain lists NumPy converts before unyt is called).",
+        "DESIGN.md section 6 C01",
+    ),
     "C02": (
         "exhaustive enumeration of all unit names, all same-dimension name pairs and the complete "
         "compound-expression grammar up to 3 factors, against an independently typed definition table and "
